@@ -163,6 +163,10 @@ func (t *SpreadMinimizingTokenGenerator) optimalTokenOwnership(optimalInstanceOw
 //   - if among the 512 (optimalTokenPerInstance) reserved tokens there is less than tokenCount
 //     tokens not already present in takenTokens.
 func (t *SpreadMinimizingTokenGenerator) GenerateTokens(requestedTokensCount int, allTakenTokens []uint32) Tokens {
+	if requestedTokensCount <= 0 {
+		return Tokens{}
+	}
+
 	used := make(map[uint32]bool, len(allTakenTokens))
 	for _, v := range allTakenTokens {
 		used[v] = true
